@@ -1,14 +1,26 @@
 package builtin
 
 import (
+	"strings"
 	"ti/base"
 	"ti/verifapi"
 )
 
-var verifAtoms = []string{"Int", "Integer", "String", "NilClass", "Foo", "Bool", "Untyped", "Float", "Symbol", "DefaultInt", "OptionalString", "Array", "Self", "Unify"}
+// every name ConvertToBuiltinT knows, plus "Integer", a plain class and a namespaced class
+var verifAtoms = append(append([]string{}, AllTypeNames...), "Integer", "Foo", "Ns::Foo")
 
 func verifAtom(name string) string {
 	return verifapi.Pick(verifapi.Int(name, 0, len(verifAtoms)-1), verifAtoms...)
+}
+
+// verifNs: class-label suffix telling whether a namespaced class name is involved.
+func verifNs(names ...string) string {
+	for _, n := range names {
+		if strings.Contains(n, "::") {
+			return "/namespaced-class-name"
+		}
+	}
+	return "/plain-name"
 }
 
 func verifEqTs(x, y []base.T) bool {
@@ -23,29 +35,76 @@ func verifEqTs(x, y []base.T) bool {
 	return true
 }
 
+func verifArgs(spec TypeSpec, isDefault, isAsterisk bool) []base.T {
+	return parseArguments([]MethodArgument{{Type: spec, IsDefault: isDefault, IsAsterisk: isAsterisk}})
+}
+
+// VerifNotation: C21. Both notations of each documented equivalence go through the real
+// parseReturnType / parseArguments / parseTypeString / ConvertToBuiltinT and the resulting
+// T values are compared field by field.
 func VerifNotation(n int) {
 	a := verifAtom("a")
-	b := verifAtom("b")
+	verifapi.Witness("a", a)
 
-	// "A|B" == ["A","B"] as return type and as argument type
-	r1 := parseReturnType(MethodReturn{Type: TypeSpec{a + "|" + b}})
-	r2 := parseReturnType(MethodReturn{Type: TypeSpec{a, b}})
-	verifapi.Assert(base.VerifEqualT(&r1, &r2), "C21-union-return")
-	x1 := parseArguments([]MethodArgument{{Type: TypeSpec{a + "|" + b}}})
-	x2 := parseArguments([]MethodArgument{{Type: TypeSpec{a, b}}})
-	verifapi.Assert(verifEqTs(x1, x2), "C21-union-argument")
+	if n >= 2 {
+		b := verifapi.Pick(verifapi.Concrete(verifapi.Int("b", 0, len(verifAtoms)-1)), verifAtoms...)
+		verifapi.Witness("b", b)
+		// "A|B" == ["A","B"], as return type and as argument type
+		r1 := parseReturnType(MethodReturn{Type: TypeSpec{a + "|" + b}})
+		r2 := parseReturnType(MethodReturn{Type: TypeSpec{a, b}})
+		verifapi.Classify("C21/union-notation-differs-as-return-type" + verifNs(a, b))
+		verifapi.Assert(base.VerifEqualT(&r1, &r2), "C21-union-return")
+		x1 := verifArgs(TypeSpec{a + "|" + b}, false, false)
+		x2 := verifArgs(TypeSpec{a, b}, false, false)
+		verifapi.Classify("C21/union-notation-differs-as-argument" + verifNs(a, b))
+		verifapi.Assert(verifEqTs(x1, x2), "C21-union-argument")
+		verifapi.Reach("compared-pairs")
+		return
+	}
 
 	// "?T" as return == [T, NilClass]
 	o1 := parseReturnType(MethodReturn{Type: TypeSpec{"?" + a}})
 	o2 := parseReturnType(MethodReturn{Type: TypeSpec{a, "NilClass"}})
+	verifapi.Classify("C21/optional-prefix-differs-as-return-type" + verifNs(a))
 	verifapi.Assert(base.VerifEqualT(&o1, &o2), "C21-optional-return")
 
 	// "?T" as argument == T with is_default ; "*T" == T with is_asterisk
-	d1 := parseArguments([]MethodArgument{{Type: TypeSpec{"?" + a}}})
-	d2 := parseArguments([]MethodArgument{{Type: TypeSpec{a}, IsDefault: true}})
+	d1 := verifArgs(TypeSpec{"?" + a}, false, false)
+	d2 := verifArgs(TypeSpec{a}, true, false)
+	verifapi.Classify("C21/optional-prefix-differs-from-is_default-argument" + verifNs(a))
 	verifapi.Assert(verifEqTs(d1, d2), "C21-default-argument")
-	s1 := parseArguments([]MethodArgument{{Type: TypeSpec{"*" + a}}})
-	s2 := parseArguments([]MethodArgument{{Type: TypeSpec{a}, IsAsterisk: true}})
+	s1 := verifArgs(TypeSpec{"*" + a}, false, false)
+	s2 := verifArgs(TypeSpec{a}, false, true)
+	verifapi.Classify("C21/asterisk-prefix-differs-from-is_asterisk-argument" + verifNs(a))
 	verifapi.Assert(verifEqTs(s1, s2), "C21-asterisk-argument")
+
+	// "[T]" == array of T: the named array types are the long notation
+	e := verifapi.Int("elem", 0, 2)
+	el := verifapi.Pick(e, "String", "Int", "Float")
+	named := verifapi.Pick(e, "StringArray", "IntArray", "FloatArray")
+	a1 := parseTypeString("[" + el + "]")
+	a2 := parseTypeString(named)
+	verifapi.Classify("C21/bracket-array-differs-from-named-array")
+	verifapi.Assert(base.VerifEqualT(&a1, &a2), "C21-array")
+
+	// "Int" == "Integer"
+	i1 := parseTypeString("Int")
+	i2 := parseTypeString("Integer")
+	verifapi.Classify("C21/Int-differs-from-Integer")
+	verifapi.Assert(base.VerifEqualT(&i1, &i2), "C21-int-integer")
+
+	// OptionalX == [X, NilClass] ; DefaultX as argument == X with is_default
+	x := verifapi.Int("x", 0, 2)
+	xn := verifapi.Pick(x, "String", "Int", "Float")
+	p1 := parseReturnType(MethodReturn{Type: TypeSpec{"Optional" + xn}})
+	p2 := parseReturnType(MethodReturn{Type: TypeSpec{xn, "NilClass"}})
+	verifapi.Classify("C21/OptionalX-differs-from-expansion")
+	verifapi.Assert(base.VerifEqualT(&p1, &p2), "C21-optionalx")
+	y := verifapi.Int("y", 0, 4)
+	yn := verifapi.Pick(y, "String", "Int", "Float", "Bool", "Untyped")
+	q1 := verifArgs(TypeSpec{"Default" + yn}, false, false)
+	q2 := verifArgs(TypeSpec{yn}, true, false)
+	verifapi.Classify("C21/DefaultX-differs-from-is_default")
+	verifapi.Assert(verifEqTs(q1, q2), "C21-defaultx")
 	verifapi.Reach("compared")
 }
